@@ -198,7 +198,9 @@ CHECKS = {
         technique="Lean 4 proof: sorting and window theorems over the reference semantics (stable insertion sort, key comparison, windowOp); tied by "
                   "comparing ordered exports and window columns of Polars and SQLite with the Spec",
         text="Pdt/Props/C05.lean with Lemmas/Sort.lean: cmpKey_descending, cmpKey_null_left/right (nulls placed by nulls_first/last alone), cmpKeys_priority, "
-             "arrange_perm (no row dropped, duplicated or changed), arrange_sorted (sorted for a total preorder), arrange_stable (rows not strictly out of order keep "
+             "arrange_perm (no row dropped, duplicated or changed), arrange_sorted (sorted for a total preorder) and arrange_sorted_typed (Lemmas/KeyOrder.lean: the key comparison is a total preorder whenever every key "
+             "column holds integers, strings or booleans and nulls, for every marker combination and number of keys - so the result of arrange is in key order with "
+             "no assumption left), arrange_stable (rows not strictly out of order keep "
              "their relative order: a later arrange takes priority, the earlier one breaks ties), arrange_no_keys, arrange_sorted_id, slice_after_arrange, "
              "select_rename_keep_order, filter_keeps_order, evalUnits_length and window_mutate_keeps_rows (one value per row; rows neither dropped nor reordered), "
              "row_number_spec, rank_spec, window_agg_spec, windowOp_rows, partitions_cover_rows / partition_is_key_class (every row in exactly one partition, a "
